@@ -18,6 +18,10 @@ import (
 type skel struct {
 	c     *ex.Ctx
 	lines []string
+	// labels of the enclosing loops, innermost last ("" = unlabelled); pending = the label of the
+	// labelled statement being translated
+	loops   []string
+	pending string
 }
 
 func lstr(s string) string { return ex.LeanStr(strings.Join(strings.Fields(s), " ")) }
@@ -156,6 +160,25 @@ func (k *skel) stmt(depth int, s ast.Stmt) {
 			k.line(depth, "breakS", ".none", ".none")
 		case v.Tok == token.CONTINUE && v.Label == nil:
 			k.line(depth, "continueS", ".none", ".none")
+		case v.Tok == token.CONTINUE && v.Label != nil:
+			// `continue L`: the label and the number of loops to leave before continuing (0 = the
+			// innermost enclosing loop carries the label)
+			for i := len(k.loops) - 1; i >= 0; i-- {
+				if k.loops[i] == v.Label.Name {
+					k.line(depth, "continueS", "(.var "+lstr(v.Label.Name)+")", fmt.Sprintf("(.int %d)", len(k.loops)-1-i))
+					return
+				}
+			}
+			k.unknownStmt(depth, s)
+		default:
+			k.unknownStmt(depth, s)
+		}
+	case *ast.LabeledStmt:
+		// only loops carry labels here; the label is resolved at each `continue L`
+		switch v.Stmt.(type) {
+		case *ast.ForStmt, *ast.RangeStmt:
+			k.pending = v.Label.Name
+			k.stmt(depth, v.Stmt)
 		default:
 			k.unknownStmt(depth, s)
 		}
@@ -187,7 +210,10 @@ func (k *skel) stmt(depth int, s ast.Stmt) {
 			cond = k.expr(v.Cond)
 		}
 		k.line(depth, "forS", cond, ".none")
+		k.loops = append(k.loops, k.pending)
+		k.pending = ""
 		k.block(depth+1, v.Body)
+		k.loops = k.loops[:len(k.loops)-1]
 		if v.Post != nil {
 			k.line(depth+1, "forPost", ".none", ".none")
 			k.stmt(depth+2, v.Post)
@@ -198,7 +224,10 @@ func (k *skel) stmt(depth int, s ast.Stmt) {
 			return
 		}
 		k.line(depth, "rangeS", "(.pair "+k.expr(v.Key)+" "+k.expr(v.Value)+")", k.expr(v.X))
+		k.loops = append(k.loops, k.pending)
+		k.pending = ""
 		k.block(depth+1, v.Body)
+		k.loops = k.loops[:len(k.loops)-1]
 	case *ast.DeclStmt:
 		gd, ok := v.Decl.(*ast.GenDecl)
 		if !ok || gd.Tok != token.VAR || len(gd.Specs) != 1 {
@@ -293,6 +322,8 @@ func genBodies(c *ex.Ctx, d *ast.File) {
 		{"focusHandler", "updatePath", "updatePath"},
 		{"mouseHandler", "mouseExit", "mouseExit"},
 		{"mouseHandler", "mouseEnter", "mouseEnter"},
+		{"mouseHandler", "update", "mouseUpdate"},
+		{"App", "handleCommand", "handleCommand"},
 	}
 	for _, m := range methods {
 		fd := ex.FindFunc(d, m.recv, m.goName)
